@@ -214,6 +214,11 @@ func propC12(c model.Case) hh.Verdict {
 		}
 	}
 	all := res.All()
+	for _, is := range all {
+		if is.Code == "sibling_noise" || (is.Err != nil && is.Err.Error() == "sibling noise") {
+			return hh.Fail("a test / PostTransform that was added to a SIBLING schema (derived from the same operand after this schema was built) ran in this schema's execution: issue %s at %q", is.Code, is.Path)
+		}
+	}
 	for _, g := range postOrder {
 		n := nodes[g.node]
 		seq := postSeq[g]
